@@ -786,7 +786,7 @@ def gen_cases(tier, needs_decl=frozenset(), with_dir_list=True):
     for lit in ('[]', '[""]', '["a", ""]', '["", "", ""]', '["é€", "x y", ""]'):
         add(Case("id", "array<string>", lit, "(wmemmove a 0 0)", "as", ["let a: array<string> = %s" % lit], ("id_as",), len(lit)))
     for cnt, each in ((2, 4085), (2, 4086), (2, 4087), (1, 8175), (1, 8176), (1, 8177), (300, 2), (815, 5), (816, 5), (817, 5), (3, 30000)):
-        add(Case("id", "array<string>", "%d strings of about %d bytes" % (cnt, each), "(wmemmove a 0 0)", "as", ["let a: array<string> = (mkas %d %d)" % (cnt, each)], ("id_as", "mkas"), cnt * each, False))
+        add(Case("id", "array<string>", "%d strings of about %d bytes" % (cnt, each), "(wmemmove a 0 0)", "as", ["let a: array<string> = (mkas %d %d)" % (cnt, each)], ("id_as", "mkas"), cnt * (each + 6), False))
     for lit in ("[]", "[[]]", "[[], []]", "[[1], [], [2, 3]]", "[[-9223372036854775808], [0, 0, 0, 0, 0, 0, 0, 0, 0], []]"):
         add(Case("id", "nested-array", lit, "(dyn_array_length a)", "int", ["let a: array<array<int>> = %s" % lit], ("alen",), len(lit)))
     for lit in ("[]", "[[]]", "[[[]]]", "[[[1]], [], [[], [2, 3]]]"):
